@@ -118,6 +118,12 @@ def run(repo, rep):
         for n in [x for hf in repo.helper_closure(fi) for x in ast.walk(hf.node)]:
             if isinstance(n, ast.Call) and norm(n.func) in ('dsutils.encode', 'dsutils.encode_element', 'dsutils.decode'):
                 a0 = norm(n.args[0]) if n.args else ''
+                if n.args and isinstance(n.args[0], ast.Name):
+                    # a local holding the argument: what it was computed from
+                    for hf2 in repo.helper_closure(fi):
+                        for asg in ast.walk(hf2.node):
+                            if isinstance(asg, ast.Assign) and len(asg.targets) == 1 and norm(asg.targets[0]) == a0:
+                                a0 = a0 + ' ' + norm(asg.value)
                 if 'command_set' in a0 or fi.name == 'set_length':
                     sites += 1
                     flags = [repo.try_fold(a, fi.module, fi.cls) for a in n.args[1:3]]
